@@ -607,6 +607,11 @@ def oracle(ctx, volume=1):
                 except Exception as e:  # noqa
                     ctx.violate(f"C18/builders_agree/{kind}/raises", f"{label}: {type(e).__name__}: {e}",
                                 {"kind": "fromhk", "sys": label, "rot_seed": rot_seed, "H": arr(H), "K": arr(K)})
+            # memory layouts of the arguments (Fortran order, transposed / strided views)
+            Hl = herm(g, d, 1.0); Jl = herm(g, d, 1.0); Kl = rand_K(g, n - 1, K_KINDS[rep % 4], 1.0)
+            ctx.count(f"oracle {label} argument memory layouts")
+            ctx.case(("layout", label, Hl.tobytes(), Kl.tobytes()), nontrivial=True, sample={"op": "builders x memory layouts", "sys": label})
+            check_layouts(ctx, label, rot_seed, c, Hl, Jl, Kl)
             # Hamiltonian-only generator (J = 0, K = 0): everything must hold exactly as stated
             H = herm(g, d, SCALES[rep % 4])
             Z = np.zeros((n - 1, n - 1), dtype=complex)
@@ -704,6 +709,7 @@ def oracle(ctx, volume=1):
                 ctx.case(("randset", label, base_kind, sh, sk, tuple(seeds)), nontrivial=True,
                          sample={"op": "RandomEffectiveLindbladianGenerationSetting", "sys": label, "base": base_kind, "calls": len(seeds)})
                 check_random_setting(ctx, label, rot_seed, base_kind, sh, sk, seeds)
+        check_pauli_helpers(ctx)
         for system, name, ids in typical_items(ctx):
             ctx.count(f"oracle typical Lindbladian {system}")
             ctx.case(("typical", system, name, tuple(ids)), nontrivial=(name != "identity"),
@@ -769,6 +775,92 @@ def check_typical(ctx, system, name, ids):
     except Exception as e:  # noqa
         V("raises", f"{type(e).__name__}: {e}")
     return fails
+
+
+PAULI = {"i": np.eye(2, dtype=complex), "x": np.array([[0, 1], [1, 0]], dtype=complex),
+         "y": np.array([[0, -1j], [1j, 0]], dtype=complex), "z": np.array([[1, 0], [0, -1]], dtype=complex)}
+
+
+def check_pauli_helpers(ctx):
+    """building blocks of the catalogue Lindbladians (effective_lindbladian_typical.py): the single-qubit maps
+    A -> HA + AH and A -> -i[H, A] for H in {I, X, Y, Z} and the 2-qubit generator of every one of the 16 Pauli-product
+    Hamiltonians, each against its definition evaluated in numpy; and the same generators through the generic builder"""
+    from quara.objects import effective_lindbladian_typical as LT
+    from quara.objects.composite_system_typical import generate_composite_system
+    n0 = len(ctx.violations)
+    c1, c2 = generate_composite_system("qubit", 1), generate_composite_system("qubit", 2)
+    B1, B2 = basis_of(c1), basis_of(c2)
+    for p_, P in PAULI.items():
+        rep = {"kind": "pauli", "which": p_}
+        try:
+            comm = np.asarray(getattr(LT, f"calc_hs_commutator_map_{p_}")())
+            anti = np.asarray(getattr(LT, f"calc_hs_minus1j_anticommutator_map_{p_}")())
+            ref_c = np.array([[np.trace(a.conj().T @ (P @ b + b @ P)) for b in B1] for a in B1])
+            ref_a = np.array([[np.trace(a.conj().T @ ((-1j) * (P @ b - b @ P))) for b in B1] for a in B1])
+            if not near(comm, ref_c.real, 1e-12) or np.abs(ref_c.imag).max() > 1e-12:
+                ctx.violate("C18/typical/pauli-helper/HA+AH", f"calc_hs_commutator_map_{p_} is not the HS matrix of A -> HA + AH for H = {p_.upper()}", rep)
+            if not near(anti, ref_a.real, 1e-12) or np.abs(ref_a.imag).max() > 1e-12:
+                ctx.violate("C18/typical/pauli-helper/-i[H,A]", f"calc_hs_minus1j_anticommutator_map_{p_} is not the HS matrix of A -> -i[H, A] for H = {p_.upper()}", rep)
+        except Exception as e:  # noqa
+            ctx.violate("C18/typical/pauli-helper/raises", f"{p_}: {type(e).__name__}: {e}", rep)
+    I4 = np.eye(4)
+    for p0 in "ixyz":
+        for p1 in "ixyz":
+            pt = p0 + p1
+            rep = {"kind": "pauli", "which": pt}
+            ctx.count("oracle typical Pauli-product generators")
+            ctx.case(("pauli2", pt), nontrivial=(pt != "ii"), sample={"op": "calc_effective_lindbladian_mat_for_2qubit_hamiltonian_pauli", "pauli_type": pt})
+            try:
+                H = np.kron(PAULI[p0], PAULI[p1])
+                ref = hs_of_lcb(B2, -1j * (np.kron(H, I4) - np.kron(I4, H.conj()))).real
+                m = np.asarray(LT.calc_effective_lindbladian_mat_for_2qubit_hamiltonian_pauli(pt))
+                if not near(m, ref, 1e-12):
+                    what = "the generator of -H" if near(m, -ref, 1e-12) else f"off by {np.abs(m - ref).max():.3g}"
+                    ctx.violate("C18/typical/pauli-helper/2qubit_hamiltonian_pauli",
+                                f"calc_effective_lindbladian_mat_for_2qubit_hamiltonian_pauli('{pt}') is not -i[H,.] for H = {pt.upper()} ({what})", rep)
+                g_ = el.generate_hs_from_h(c2, H)
+                if not near(g_, ref, 1e-12):
+                    ctx.violate("C18/typical/pauli-helper/generate_hs_from_h", f"generate_hs_from_h(H = {pt.upper()}) is not -i[H,.]", rep)
+            except Exception as e:  # noqa
+                ctx.violate("C18/typical/pauli-helper/raises", f"{pt}: {type(e).__name__}: {e}", rep)
+    return len(ctx.violations) - n0
+
+
+def layouts(A):
+    """the same matrix in several memory layouts (all equal as arrays)"""
+    A = np.ascontiguousarray(A)
+    big = np.zeros((2 * A.shape[0], 2 * A.shape[1]), dtype=A.dtype)
+    big[::2, ::2] = A
+    return {"C": A, "F": np.asfortranarray(A), "transposed-view": np.ascontiguousarray(A.T).T,
+            "strided-view": big[::2, ::2], "conj-conj": A.conj().conj()}
+
+
+def check_layouts(ctx, label, rot_seed, c, H, J, K):
+    """the builders must not depend on the memory layout of their (equal) arguments"""
+    n0 = len(ctx.violations)
+    rep = {"kind": "layout", "sys": label, "rot_seed": rot_seed, "H": arr(H), "J": arr(J), "K": arr(K)}
+    try:
+        ref = {"from_hk": el.generate_hs_from_hk(c, H, K), "from_k": el.generate_hs_from_k(c, K),
+               "from_hjk": el.generate_hs_from_hjk(c, H, J, K), "from_h": el.generate_hs_from_h(c, H),
+               "j_from_k": el._calc_j_mat_from_k_mat(K, c)}
+    except Exception as e:  # noqa
+        ctx.violate("C18/layout/reference/raises", f"{label}: {type(e).__name__}: {e}", rep)
+        return 1
+    S = max(float(np.abs(ref["from_hjk"]).max()), 1e-300)
+    LH, LJ, LK = layouts(H), layouts(J), layouts(K)
+    for lay in ("F", "transposed-view", "strided-view", "conj-conj"):
+        calls = {"from_hk": lambda: el.generate_hs_from_hk(c, LH[lay], LK[lay]), "from_k": lambda: el.generate_hs_from_k(c, LK[lay]),
+                 "from_hjk": lambda: el.generate_hs_from_hjk(c, LH[lay], LJ[lay], LK[lay]), "from_h": lambda: el.generate_hs_from_h(c, LH[lay]),
+                 "j_from_k": lambda: el._calc_j_mat_from_k_mat(LK[lay], c)}
+        for nm, fn in calls.items():
+            try:
+                got = fn()
+            except Exception as e:  # noqa
+                ctx.violate(f"C18/layout/{nm}/raises", f"{label}: arguments in layout '{lay}' (equal to the C-contiguous ones): {type(e).__name__}: {str(e)[:120]}", dict(rep, layout=lay))
+                continue
+            if not near(got, ref[nm], 1e-12, ref=S):
+                ctx.violate(f"C18/layout/{nm}", f"{label}: result for arguments in layout '{lay}' differs from the C-contiguous result by {np.abs(got - ref[nm]).max():.3g}", dict(rep, layout=lay))
+    return len(ctx.violations) - n0
 
 
 def check_random_setting(ctx, label, rot_seed, base_kind, sh, sk, seeds):
@@ -842,6 +934,17 @@ def replay(ctx, data):
     r = data["replay"]
     sig = data.get("signature", "")
     print("replaying", sig, "on", r.get("sys") or r.get("system"))
+    if r["kind"] == "pauli":
+        k = check_pauli_helpers(ctx)
+        for v in ctx.violations:
+            print("  still failing:", v["signature"], "-", v["what"])
+        return 1 if k else 0
+    if r["kind"] == "layout":
+        c = sys_by_label(r["sys"], r["rot_seed"])
+        k = check_layouts(ctx, r["sys"], r["rot_seed"], c, unarr(r["H"]), unarr(r["J"]), unarr(r["K"]))
+        for v in ctx.violations:
+            print("  still failing:", v["signature"], "-", v["what"])
+        return 1 if k else 0
     if r["kind"] == "randset":
         f = check_random_setting(ctx, r["sys"], r["rot_seed"], r["base"], r["sh"], r["sk"], r["seeds"])
         for v in ctx.violations:
